@@ -96,14 +96,31 @@ def consts(repo):
     return out
 
 
-def generate(repo, gen_dir):
+def _poison(path, what, err):
+    """the translation failed: the generated file says so in a way that does not compile, so that exactly the theories
+    depending on it fail to build (and name the translator in the error); the others are unaffected"""
     from common import write_if_changed
-    body = ["(* GENERATED on every check by tools/gen_tables.py from %s -- do not edit. *)" % "/repo/src",
-            "From Coq Require Import List NArith.", "Import ListNotations.", ""]
-    for name, ty, val in consts(repo):
-        body.append("Definition %s : %s := %s." % (name, ty, val))
-    write_if_changed(os.path.join(gen_dir, "GenConsts.v"), "\n".join(body) + "\n")
-    generate_esc(repo, gen_dir)
+    msg = str(err).replace("*)", "* )").replace('"', "'")
+    write_if_changed(path, "(* GENERATED: the translation of %s FAILED: %s *)\n"
+                           "Definition translator_failed : False := \"tools/gen_tables.py: %s\".\n" % (what, msg, msg))
+
+
+def generate(repo, gen_dir):
+    """Every table is translated on its own: a pattern that no longer matches the source breaks the build of the
+    theories that use THAT table, not of everything."""
+    from common import write_if_changed
+    try:
+        body = ["(* GENERATED on every check by tools/gen_tables.py from %s -- do not edit. *)" % "/repo/src",
+                "From Coq Require Import List NArith.", "Import ListNotations.", ""]
+        for name, ty, val in consts(repo):
+            body.append("Definition %s : %s := %s." % (name, ty, val))
+        write_if_changed(os.path.join(gen_dir, "GenConsts.v"), "\n".join(body) + "\n")
+    except TranslatorError as e:
+        _poison(os.path.join(gen_dir, "GenConsts.v"), "the constants", e)
+    try:
+        generate_esc(repo, gen_dir)
+    except TranslatorError as e:
+        _poison(os.path.join(gen_dir, "GenEscSeq.v"), "the escape-sequence tables of src/tty/unix.rs", e)
 
 
 # ---------------------------------------------------------------- Unicode segmentation tables
